@@ -60,7 +60,9 @@ def gen_case(rng, tier):
         else:
             k = rng.randint(1, 4)
             inner = [write() for _ in range(k)]
-            ab = None if rng.random() < 0.6 else rng.randint(0, k)
+            inner = HX.nest_some(rng, inner, 0.3)
+            k2 = len(inner)
+            ab = None if rng.random() < 0.6 else rng.randint(0, k2)
             if ab is None:
                 for w in inner:
                     HX.apply_model(m, w)
